@@ -306,3 +306,103 @@ func RunLifecycleCase(seed int64, workDir string) *HistResult {
 	}
 	return res
 }
+
+// RunReloadAllowFailureCase (C16): a job is accepted with an allow_failure task; a reload then makes that failure
+// not allowed any more (or removes the task); the task then fails in a way the runner does not report (it fails before its
+// script runs). The job was accepted under the old definition: the failure is allowed, the dependent runs, the sibling
+// is left alone, the job is not canceled.
+func RunReloadAllowFailureCase(seed int64, variant int) *HistResult {
+	res := &HistResult{Seed: seed, Situations: map[string]map[string]struct{}{}, Evaluations: map[string]int{}}
+	find := func(sig, format string, args ...any) {
+		res.Findings = append(res.Findings, Finding{Props: []string{"C16"}, Sig: sig, Detail: fmt.Sprintf(format, args...), Step: -1})
+	}
+	mk := func(allow bool, withX bool, cont bool) *definition.PipelinesDef {
+		d := definition.PipelineDef{Concurrency: 2, ContinueRunningTasksAfterFailure: cont, SourcePath: "gen", Tasks: map[string]definition.TaskDef{
+			"s": {Script: []string{"true"}},
+		}}
+		if withX {
+			d.Tasks["x"] = definition.TaskDef{Script: []string{"true"}, AllowFailure: allow}
+			d.Tasks["y"] = definition.TaskDef{Script: []string{"true"}, DependsOn: []string{"x"}}
+		} else {
+			d.Tasks["y"] = definition.TaskDef{Script: []string{"true"}}
+		}
+		return &definition.PipelinesDef{Pipelines: map[string]definition.PipelineDef{"p": d}}
+	}
+	cont := (variant/4)%2 == 1
+	core.SetPause(200 * time.Microsecond)
+	sys, err := core.NewSys(mk(true, true, cont), nil, core.NewMemOutputStore())
+	if err != nil {
+		res.Inconclusive = err.Error()
+		return res
+	}
+	defer sys.Close()
+	defer DrainAll(sys)
+	// when is the job accepted relative to the reload: running (0), waiting behind a busy slot (1)
+	var blockers []string
+	if variant%2 == 1 {
+		for i := 0; i < 2; i++ {
+			id, _ := sys.Schedule(0, "p", nil, "u")
+			blockers = append(blockers, id)
+		}
+	}
+	id, cls := sys.Schedule(0, "p", nil, "u")
+	if cls != "ok" {
+		res.Inconclusive = "schedule: " + cls
+		return res
+	}
+	q := func() bool {
+		if _, err := sys.Quiesce(core.QuiesceOpts{Watchdog: 20 * time.Second}); err != nil {
+			res.Inconclusive = err.Error()
+			return false
+		}
+		return true
+	}
+	if !q() {
+		return res
+	}
+	removeTask := (variant/2)%2 == 1
+	sys.Replace(0, mk(false, !removeTask, cont), "allow_failure of x switched off / x removed")
+	res.sit("C16", fmt.Sprintf("allow_failure task fails unreported after a reload (task removed=%v, job waiting at reload=%v, continue=%v)", removeTask, variant%2 == 1, cont))
+	res.Evaluations["C16"]++
+	for _, b := range blockers {
+		for _, tn := range []string{"s", "x"} {
+			if sys.Gates.AtGate(b, tn) {
+				sys.Release(b, tn, core.Outcome{Kind: core.OutOK})
+			}
+		}
+		if !q() {
+			return res
+		}
+		if sys.Gates.AtGate(b, "y") {
+			sys.Release(b, "y", core.Outcome{Kind: core.OutOK})
+		}
+		if !q() {
+			return res
+		}
+	}
+	if !sys.Gates.AtGate(id, "x") || !sys.Gates.AtGate(id, "s") {
+		res.Inconclusive = "the job's tasks x and s are not inside the runner"
+		return res
+	}
+	sys.Release(id, "x", core.Outcome{Kind: core.OutErrQuiet})
+	if !q() {
+		return res
+	}
+	canceled := false
+	for _, e := range sys.Log.Events() {
+		if e.Job == id && (e.Kind == core.KCancelSpawned || e.Kind == core.KCancelEnter) {
+			canceled = true
+		}
+	}
+	if canceled {
+		find("C16:reload-changed-failure-handling-of-accepted-job", "the job was accepted with allow_failure for task x; after a reload (task removed=%v) x failed and the job's other tasks were told to stop", removeTask)
+	} else if !sys.Gates.AtGate(id, "y") {
+		find("C16:reload-changed-failure-handling-of-accepted-job", "the job was accepted with allow_failure for task x; after a reload (task removed=%v) x failed and its dependent y was not started", removeTask)
+	}
+	DrainAll(sys)
+	if j, ok := sys.ReadJob(id); ok && (j.Canceled || !j.Completed) {
+		find("C16:reload-canceled-existing-job", "the job accepted with allow_failure for task x ended completed=%v canceled=%v error=%q after x failed (reload in between: task removed=%v)", j.Completed, j.Canceled, j.LastError, removeTask)
+	}
+	res.Events = sys.Log.Len()
+	return res
+}
